@@ -387,6 +387,18 @@ def Reg.key (r : Reg) : Nat × Nat := (r.pid, r.time)
 /-- Keys in first-registration order. -/
 def capKeys (regs : List Reg) : List (Nat × Nat) := (regs.map Reg.key).eraseDups
 
+/-- The term a registration contributes to its capacity constraint (variable usage). -/
+def Reg.varTerm (r : Reg) : Option (Int × VarId) :=
+  match r.usage with
+  | .var v => some (1, v)
+  | .const _ => .none
+
+/-- The constant a registration moves to the right-hand side (fixed usage). -/
+def Reg.constUse (r : Reg) : Int :=
+  match r.usage with
+  | .const c => c
+  | .var _ => 0
+
 /-- `CapacityConstraint` for one (partition, time) key: the variable usages in
 registration order, the partition quantity minus the constant usages. -/
 def capConstr (regs : List Reg) (k : Nat × Nat) : Constr :=
@@ -397,13 +409,8 @@ def capConstr (regs : List Reg) (k : Nat × Nat) : Constr :=
   let pname := match rs.head? with
     | some r => r.pname
     | .none => ""
-  let terms := rs.filterMap (fun r => match r.usage with
-    | .var v => some ((1 : Int), v)
-    | .const _ => .none)
-  let consts : Int := (rs.map (fun r => match r.usage with
-    | .const c => c
-    | .var _ => 0)).sum
-  ⟨"CapacityConstraint_" ++ pname ++ "_at_" ++ toString k.2, .le, qty - consts, terms⟩
+  ⟨"CapacityConstraint_" ++ pname ++ "_at_" ++ toString k.2, .le,
+    qty - (rs.map Reg.constUse).sum, rs.filterMap Reg.varTerm⟩
 
 def capConstrs (regs : List Reg) : List Constr := (capKeys regs).map (capConstr regs)
 
